@@ -310,9 +310,8 @@ func (m *c02Model) normalize(decl c02Map, v interface{}) (interface{}, error) {
 		}
 		v = cv
 	}
-	if f, ok := v.(float64); ok && (math.IsNaN(f) || math.IsInf(f, 0)) {
-		return nil, c02Failf("NaN / Inf cannot be emitted")
-	}
+	// (a NaN / Inf produced by a float cast is a value like any other while it travels - a function may take it as an
+	// argument; only when it is EMITTED does the record fail: c02NonFinite, applied to the final value)
 	if c02IsEmpty(v) {
 		keep, _ := decl["keep_empty_or_null"].(bool)
 		if !keep {
@@ -320,6 +319,27 @@ func (m *c02Model) normalize(decl c02Map, v interface{}) (interface{}, error) {
 		}
 	}
 	return v, nil
+}
+
+// c02NonFinite reports whether an evaluated output contains a float that JSON cannot carry.
+func c02NonFinite(v interface{}) bool {
+	switch t := v.(type) {
+	case float64:
+		return math.IsNaN(t) || math.IsInf(t, 0)
+	case c02Map:
+		for _, x := range t {
+			if c02NonFinite(x) {
+				return true
+			}
+		}
+	case []interface{}:
+		for _, x := range t {
+			if c02NonFinite(x) {
+				return true
+			}
+		}
+	}
+	return false
 }
 
 func c02Cast(v interface{}, typ string) (interface{}, error) {
